@@ -4,7 +4,7 @@ CONSTANTS
   MaxModel = 1
   FileMode = FALSE
   MaxOps = 0
-  Layered = FALSE
+  Layered = TRUE
   NObj = 1
   Deviations = {}
 CHECK_DEADLOCK FALSE
